@@ -1,16 +1,18 @@
 (* Reactive/Bridge.v -- executable bridge between the full runtime model (Reactive/Interp.v) and the
    pure-callback propagation model (ReactivePure) on which C01-C03 are proved: for a program whose
    computations have pure expression bodies, the state before a write is translated to the pure model,
-   both models propagate the write (the pure one along the order computed by the runtime model's dfs),
+   both models propagate the write (the pure one once along the order computed by the runtime model's dfs, and
+   once as a whole with its own depth-first pass, ReactivePure/Dfs.v: the schedules must coincide),
    and the resulting values, dependency lists, subscriber lists and dirty flags are compared.
    The comparison is evaluated by every run of the C01/C02/C03 checks on their scenario families;
    it is a model-to-model correspondence, not a theorem. Definitions only. *)
 From stdpp Require Import gmap list.
 From Coq Require Import ZArith String.
 From Syc Require Import Reactive.Syntax Reactive.Interp Reactive.Show.
-Require Syc.ReactivePure.Pure Syc.ReactivePure.Loop.
+Require Syc.ReactivePure.Pure Syc.ReactivePure.Loop Syc.ReactivePure.Dfs.
 Module PP := Syc.ReactivePure.Pure.
 Module PL := Syc.ReactivePure.Loop.
+Module PD := Syc.ReactivePure.Dfs.
 Open Scope Z_scope.
 
 Fixpoint tr_expr (en : env) (e : expr) : option PP.expr :=
@@ -74,7 +76,18 @@ Definition bridge_step (fuel : nat) (s : state) (x : nat) (v : Z) : verdict :=
                   match loop true fuel (rev buf) s3, to_pure s3 with
                   | Ok _ s4, Some p3 =>
                       match PL.loop (rev buf) p3 with
-                      | Some (p4, _) => if forallb (same_at s4 p4) (seq 0 (next s4)) then Agree else Differ
+                      | Some (p4, _) =>
+                          (* the whole write in the pure model (its own depth-first pass): same schedule, same result *)
+                          let whole :=
+                            match to_pure s1 with
+                            | Some p1 =>
+                                match PD.propagate [id] p1 with
+                                | PD.POk p5 order _ => bool_decide (order = rev buf) && forallb (same_at s4 p5) (seq 0 (next s4))
+                                | PD.PErr _ => false
+                                end
+                            | None => false
+                            end in
+                          if forallb (same_at s4 p4) (seq 0 (next s4)) && whole then Agree else Differ
                       | None => Differ
                       end
                   | _, _ => NotApplicable
